@@ -30,7 +30,7 @@ ASSUMPTIONS = [
 ]
 PROBES = ["lists", "entries", "entries_changed", "poison_entries", "poison_text", "poison_bg", "three_element_entries", "large_true",
           "empty_list", "duplicates", "calls", "label_checked", "label_skipped_alpha_bg", "mode0", "mode1", "mode2", "very_readable",
-          "status_very_readable", "status_readable", "status_not_readable", "list_entries_form", "alias_family_entries"]
+          "status_very_readable", "status_readable", "status_not_readable", "list_entries_form", "alias_family_entries", "same_translucent_text_on_several_backgrounds"]
 
 
 def _colour(rng, rgb, role):
@@ -92,6 +92,15 @@ def generate(rseed, tier, idx):
                 e["bg_rgb"] = None if refs.any_rgb(fam[k]) is None else list(refs.any_rgb(fam[k]))
             e["alias"] = True
             L[i] = e
+    if n >= 2 and g.random() < 0.35:
+        # one translucent text spelling (whose meaning depends on the background) used on several backgrounds
+        src = gen.rand_rgb(g)
+        txt = enc(gen.spell_alpha(g, src, g.choice((0.25, 0.5, 0.75)), g.choice(gen.ALPHA_SPELLINGS))[0])
+        for i in g.sample(range(n), g.randint(2, min(3, n))):
+            L[i]["t"] = txt
+            L[i].pop("poison", None) if L[i].get("poison") == "t" else None
+            L[i]["alpha"] = True
+            L[i]["same_alpha_text"] = True
     perm = list(range(n))
     g.shuffle(perm)
     pe = _entry(g, vr, 1.0)
@@ -196,6 +205,8 @@ def execute(trace):
             bump("large_true")
         if e.get("alias"):
             bump("alias_family_entries")
+        if e.get("same_alpha_text"):
+            bump("same_translucent_text_on_several_backgrounds")
 
     # ---- 2. the history of bulk calls, all in this one process
     failed_in_base = set()
